@@ -1,0 +1,49 @@
+//go:build verif
+
+package config
+
+import (
+	"sync/atomic"
+
+	"github.com/tevino/abool"
+)
+
+// Verification helpers (build tag "verif" only); nothing here is compiled into a normal build.
+
+// VerifReset puts the package-level state of the configuration registry back to what it is
+// right after package initialisation (only the expertise-level and release-level options
+// registered, release level stable, a fresh valid validity flag) and configures the path of the
+// persisted user layer ("" = persistence not configured).
+func VerifReset(filePath string) {
+	optionsLock.Lock()
+	options = make(map[string]*Option)
+	optionsLock.Unlock()
+
+	validityFlagLock.Lock()
+	validityFlag.SetTo(false)
+	validityFlag = abool.NewBool(true)
+	validityFlagLock.Unlock()
+
+	atomic.StoreInt32(releaseLevel, int32(ReleaseLevelStable))
+	atomic.StoreInt32(expertiseLevel, int32(ExpertiseLevelUser))
+	releaseLevelOptionFlag.UnSet()
+	expertiseLevelOptionFlag.UnSet()
+	registerExpertiseLevelOption()
+	registerReleaseLevelOption()
+
+	configFilePath = filePath
+
+	loadedConfigValidationErrorsLock.Lock()
+	loadedConfigValidationErrors = nil
+	loadedConfigValidationErrorsLock.Unlock()
+}
+
+// VerifLoadConfig calls the unexported loadConfig.
+func VerifLoadConfig(requireValidConfig bool) error {
+	return loadConfig(requireValidConfig)
+}
+
+// VerifReleaseLevel returns the internal release-level gate used by every getter.
+func VerifReleaseLevel() uint8 {
+	return uint8(getReleaseLevel())
+}
